@@ -16,6 +16,9 @@ type Res struct {
 	Name    string `json:"name"`
 	Variant int    `json:"variant"`
 	Policy  string `json:"policy,omitempty"` // value of helm.sh/resource-policy ("" = annotation absent)
+	// APIVer overrides the kind's apiVersion (HorizontalPodAutoscaler: "autoscaling/v2" next to the default
+	// "autoscaling/v1"): the same object addressed through another served version.
+	APIVer string `json:"apiVer,omitempty"`
 	// NS is an explicit metadata.namespace in the template ("" = none: the release namespace "default" applies).
 	NS string `json:"ns,omitempty"`
 }
@@ -44,6 +47,8 @@ var Kinds = map[string]kindInfo{
 	"Pod":            {"v1", "pods", "/api/v1", 26},
 	"Deployment":     {"apps/v1", "deployments", "/apis/apps/v1", 29},
 	"Job":            {"batch/v1", "jobs", "/apis/batch/v1", 32},
+	// served under two versions (autoscaling/v1 and autoscaling/v2): see Res.APIVer and Cluster.canon
+	"HorizontalPodAutoscaler": {"autoscaling/v1", "horizontalpodautoscalers", "/apis/autoscaling/v1", 30},
 }
 
 // Path returns the object path of (kind, name) in namespace ns.
@@ -52,8 +57,15 @@ func Path(kind, name, ns string) string {
 	return fmt.Sprintf("%s/namespaces/%s/%s/%s", ki.Prefix, ns, ki.Plural, name)
 }
 
-// Path of the resource (in the release namespace unless the template names another one).
-func (r Res) Path() string { return Path(r.Kind, r.Name, r.Namespace()) }
+// Path of the resource (in the release namespace unless the template names another one; under the API version the
+// template names).
+func (r Res) Path() string {
+	p := Path(r.Kind, r.Name, r.Namespace())
+	if r.APIVer != "" {
+		p = strings.Replace(p, Kinds[r.Kind].Prefix+"/", "/apis/"+r.APIVer+"/", 1)
+	}
+	return p
+}
 
 // Key is kind/name (kind/name@namespace when the template names a namespace).
 func (r Res) Key() string {
@@ -74,6 +86,9 @@ func (r Res) Object() map[string]interface{} {
 		md["annotations"] = map[string]interface{}{"helm.sh/resource-policy": r.Policy}
 	}
 	o := map[string]interface{}{"apiVersion": ki.APIVersion, "kind": r.Kind, "metadata": md}
+	if r.APIVer != "" {
+		o["apiVersion"] = r.APIVer
+	}
 	v := fmt.Sprint(r.Variant)
 	switch r.Kind {
 	case "ConfigMap":
@@ -87,6 +102,13 @@ func (r Res) Object() map[string]interface{} {
 		o["spec"] = map[string]interface{}{
 			"selector": map[string]interface{}{"app": r.Name},
 			"ports":    []interface{}{map[string]interface{}{"name": "http", "port": int64(80), "targetPort": int64(8000 + r.Variant), "protocol": "TCP"}},
+		}
+	case "HorizontalPodAutoscaler":
+		// only fields that exist in both served versions
+		o["spec"] = map[string]interface{}{
+			"scaleTargetRef": map[string]interface{}{"apiVersion": "apps/v1", "kind": "Deployment", "name": r.Name},
+			"minReplicas":    int64(1),
+			"maxReplicas":    int64(2 + r.Variant),
 		}
 	case "Deployment":
 		o["spec"] = map[string]interface{}{
@@ -148,6 +170,8 @@ type ChartSpec struct {
 	// ValuesProbe adds a ConfigMap "probe" whose data.values is the JSON of .Values (C13).
 	ValuesProbe bool                   `json:"valuesProbe,omitempty"`
 	Defaults    map[string]interface{} `json:"defaults,omitempty"`
+	// SubDefaults, when not nil, adds a dependency chart "sub" (same version) whose values.yaml holds these defaults (C13).
+	SubDefaults map[string]interface{} `json:"subDefaults,omitempty"`
 	Schema      string                 `json:"schema,omitempty"`
 }
 
@@ -196,6 +220,15 @@ func (c ChartSpec) Build() *chart.Chart {
 	}
 	if c.Schema != "" {
 		ch.Schema = []byte(c.Schema)
+	}
+	if c.SubDefaults != nil {
+		sub := &chart.Chart{
+			Metadata:  &chart.Metadata{APIVersion: "v2", Name: "sub", Version: fmt.Sprintf("1.0.%d", c.Version)},
+			Values:    deepCopyJSON(c.SubDefaults),
+			Templates: []*chart.File{{Name: "templates/probe.yaml", Data: []byte("apiVersion: v1\nkind: ConfigMap\nmetadata:\n  name: probe-sub\ndata:\n  values: {{ toJson .Values | quote }}\n")}},
+		}
+		ch.Metadata.Dependencies = append(ch.Metadata.Dependencies, &chart.Dependency{Name: "sub", Version: sub.Metadata.Version})
+		ch.AddDependency(sub)
 	}
 	return ch
 }
